@@ -3548,6 +3548,13 @@ class Fused(Blockwise):
     def _divisions(self):
         return self.exprs[0]._divisions()
 
+    def simplify_once(self, dependents, simplified):
+        # The fused sub-graph refers to the external dependencies by name.
+        # Rewriting a dependency independently of ``exprs`` (e.g. when an
+        # already optimized collection is optimized again) would leave those
+        # references dangling, so a fused group is treated as opaque.
+        return self
+
     def _broadcast_dep(self, dep: Expr):
         # Always broadcast single-partition dependencies in Fused
         return dep.npartitions == 1
